@@ -13,7 +13,7 @@ pub fn def() -> PropDef {
         job_level,
         run_job,
         replay,
-        rule: "configs: action lists (x), (x y), (x y z), (x y z w) x {tap-dance, tap-dance-eager} x timeout T in {3,6} x rapid-event-delay {0,5}; a = the dance key, b = plain key. Histories: EVERY physically consistent schedule of N events over press/release of a and b, each preceded by a gap from {0,1,T-1,T,T+1} (quick N=5, thorough N=6/7), then released and settled. Oracle TapDanceSpec: taps are counted while each press of the dance key follows the previous press by less than T (gap == T: either reading accepted, but the press must be accounted for); the dance ends on timeout / press of another key / list exhausted; lazy: the sequence of press outputs equals [N-th action of each dance, interrupting keys after the chosen action], each chosen action pressed once and released not before the final release of the dance key; eager: the i-th tap of a dance presses the i-th action. Accounting invariant: the tap counts implied by the outputs sum to the number of physical presses of the dance key (no press swallowed, none doubled). After settle nothing is held.",
+        rule: "configs: action lists (x), (x y), (x y z), (x y z w) x {tap-dance, tap-dance-eager} x timeout T in {3,6} x rapid-event-delay {0,5}; a = the dance key, b = plain key. Histories: EVERY physically consistent schedule of N events over press/release of a and b, each preceded by a gap from {0,1,T-1,T,T+1} (quick N=5, thorough N=6/7), then released and settled. Taps family: EVERY sequence of U complete taps (press, 1 tick, release) of a / b with the gap before each tap from {1, T-1, T+1} (quick U=6, thorough U=7): reaches list exhaustion and restart (len+2 taps in a row). Oracle TapDanceSpec: taps are counted while each press of the dance key follows the previous press by less than T (gap == T: either reading accepted, but the press must be accounted for); the dance ends on timeout / press of another key / list exhausted; lazy: the sequence of press outputs equals [N-th action of each dance, interrupting keys after the chosen action], each chosen action pressed once and released not before the final release of the dance key; eager: the i-th tap of a dance presses the i-th action. Accounting invariant: the tap counts implied by the outputs sum to the number of physical presses of the dance key (no press swallowed, none doubled). After settle nothing is held.",
         assumptions: &["key actions only in the lists (layer / tap-hold members are covered by C01/C02 for crash and stuck-output, not for count)", "boundary gap == T is a don't-care between 'same dance' and 'new dance'"],
         required_level,
         min_outcomes: 3,
@@ -50,6 +50,8 @@ struct Job {
     n: usize,
     first: usize,
     level: u32,
+    /// taps family: n units, each a complete tap (press, 1 tick, release) of a or b
+    taps: bool,
 }
 
 fn jobs(tier: Tier) -> &'static Vec<Job> {
@@ -74,7 +76,22 @@ fn jobs(tier: Tier) -> &'static Vec<Job> {
                         }
                         for red in [5u32, 0] {
                             for first in 0..10 {
-                                v.push(Job { spec: Spec { len, eager, t, red }, n, first, level: lvl });
+                                v.push(Job { spec: Spec { len, eager, t, red }, n, first, level: lvl, taps: false });
+                            }
+                        }
+                    }
+                }
+            }
+            // taps family (level 0 only): long runs of taps reach list exhaustion + restart (len + 2 taps)
+            if lvl == 0 {
+                let units = if tier == Tier::Quick { 6 } else { 7 };
+                for len in 1..=4usize {
+                    for eager in [false, true] {
+                        for t in [3u32, 6] {
+                            for red in [5u32, 0] {
+                                for first in 0..6 {
+                                    v.push(Job { spec: Spec { len, eager, t, red }, n: units, first, level: 0, taps: true });
+                                }
                             }
                         }
                     }
@@ -367,11 +384,42 @@ fn run_job(tier: Tier, idx: usize, st: &mut Stats) {
             }
         }
     }
+    // taps family: every sequence of n taps of a / b, gap before each tap from {1, T-1, T+1}
+    fn rec_taps(depth: usize, n: usize, first: usize, gaps: &[u32; 3], keys: &[u16; 2], sched: &mut Vec<(u32, Ev)>, f: &mut dyn FnMut(&[(u32, Ev)])) {
+        if depth == n {
+            f(sched);
+            return;
+        }
+        let mut choice = 0;
+        for k in 0..2 {
+            for g in gaps {
+                if depth == 0 && choice != first {
+                    choice += 1;
+                    continue;
+                }
+                choice += 1;
+                sched.push((*g, Ev::P(keys[k])));
+                sched.push((1, Ev::R(keys[k])));
+                rec_taps(depth + 1, n, first, gaps, keys, sched, f);
+                sched.pop();
+                sched.pop();
+            }
+        }
+    }
     let mut sched = vec![];
     let mut down = [false; 2];
     let mut prev: Vec<(u32, Ev)> = vec![];
     let mut n_exec = 0u64;
-    rec(0, j.n, j.first, &gaps, &keys, &mut sched, &mut down, &mut |sc| {
+    let tap_gaps = [1u32, t - 1, t + 1];
+    let is_taps = j.taps;
+    let mut drive = |f: &mut dyn FnMut(&[(u32, Ev)])| {
+        if is_taps {
+            rec_taps(0, j.n, j.first, &tap_gaps, &keys, &mut sched, f);
+        } else {
+            rec(0, j.n, j.first, &gaps, &keys, &mut sched, &mut down, f);
+        }
+    };
+    drive(&mut |sc| {
         if found.len() >= 4 {
             return;
         }
